@@ -21,7 +21,7 @@ OUTSIDE = 'long cycles, non-linear interpolation kinds and non-linear functions 
           'variance outputs of bin_by_phase, augmented mode'
 ASSUMPTIONS = ['label vectors: labels 0..K-1 in temporal order, every label present, arbitrary -1 gaps (also interrupting a cycle); interleaved/revisited labels are outside',
                'interp1d(linear, extrapolate) modelled as piecewise-linear interpolation (validated by concrete replays)']
-REQUIRED_CLASSES = ['stat:has-gap', 'stat:two-cycles', 'stat:cycle-resumes-after-gap', 'align:run', 'bin:empty-bin', 'bin:last-bin-used']
+REQUIRED_CLASSES = ['stat:has-gap', 'stat:two-cycles', 'stat:cycle-resumes-after-gap', 'stat:integer-values', 'align:run', 'bin:empty-bin', 'bin:last-bin-used']
 EXPECTED_LABELS = ['stat-never-raises', 'stat-per-cycle', 'stat-samples-projection', 'align-never-raises', 'align-linear-exact',
                    'bin-never-raises', 'bin-means']
 BUDGET_S = {'quick': 150, 'thorough': 900}
@@ -51,6 +51,9 @@ def configs(tier):
     for n in ns:
         for fn in (('mean', 'len') if n == max(ns) else ('mean', 'max', 'sum', 'len', 'first', 'range')):
             out.append(('stat-N%d-%s' % (n, fn), {'kind': 'stat', 'N': n, 'func': fn}))
+    # integer-dtype values: the statistic is the function's value (a mean of counts is not a count)
+    for n in ((4,) if tier == 'quick' else (4, 5, 6)):
+        out.append(('stat-N%d-mean-int-values' % n, {'kind': 'stat', 'N': n, 'func': 'mean', 'int_values': True}))
     lens = [(2, 2), (3, 2), (2, 3)] if tier == 'quick' else [(2, 2), (3, 2), (2, 3), (3, 3), (4, 2)]
     for la, lb in lens:
         for npnt in ((2, 4) if tier == 'quick' else (2, 4, 6)):
@@ -100,7 +103,11 @@ def harness(h):
         labels, ncyc = label_vector(h, N)
         if ncyc == 0:
             return
-        vals = h.reals('x', N)
+        if h.params.get('int_values'):
+            vals = h.int_array('x', N, -4, 4)
+            h.note('stat:integer-values')
+        else:
+            vals = h.reals('x', N)
         if -1 in labels:
             h.note('stat:has-gap')
         if ncyc >= 2:
